@@ -360,8 +360,13 @@ where
 impl<T: SharedResource + Add<Output = T> + Sub<Output = T>> SharedResourceState<T> {
     /// Calculates available resource based on consumption in the whole solution.
     fn update_resource_consumption(&self, solution_ctx: &mut SolutionContext) {
-        // NOTE: we cannot estimate resource consumption in partial solutions
+        // NOTE: we cannot estimate resource consumption in partial solutions, but route state still has to match
+        //       the tours: nothing is known about available resources
         if (self.is_partial_solution_fn)(solution_ctx) {
+            solution_ctx.routes.iter_mut().for_each(|route_ctx| {
+                let unknown_resources: Vec<Option<T>> = vec![None; route_ctx.route().tour.total()];
+                route_ctx.state_mut().set_activity_states::<SharedResourceStateKey, _>(unknown_resources)
+            });
             return;
         }
 
